@@ -83,6 +83,7 @@ def plan(ctx):
     for K in ["K1", "K2", "K3", "K4", "K5", "K6", "K7", "K8", "KG0", "K9", "K10"]:
         out.append(("S2", K, "plain"))
         out.append(("T3", K, "plain"))
+    out += [("P2", "K5", "plain"), ("P3", "K5", "plain"), ("PK", "K5", "plain")]  # limit_sigma with mixed-sigma multi-player teams
     for K in ("K0", "K4", "K5", "K7"):
         out.append(("T3z", K, "plain"))
         out.append(("S2z", K, "plain"))
